@@ -9,8 +9,16 @@ PROP=${4:-$(jq -r .property $S/meta.json)}
 WT=/tmp/wt-eval
 OUT=/tmp/mutout/$ID-$PROP
 [ -d $WT ] || git -C /repo worktree add -q --detach $WT HEAD || exit 2
-git -C $WT checkout -q --detach $(git -C /repo rev-parse HEAD) && git -C $WT reset -q --hard && git -C $WT clean -qfd || exit 2
-git -C $WT apply $S/patch.diff 2>/dev/null || git -C $WT apply -3 $S/patch.diff 2>/dev/null || { echo "EVAL $ID: patch does not apply to HEAD"; exit 2; }
+ON=$(git -C /repo rev-parse HEAD)
+git -C $WT checkout -q --detach $ON && git -C $WT reset -q --hard && git -C $WT clean -qfd || exit 2
+if [ -f $S/patch.rebased.diff ] && git -C $WT apply $S/patch.rebased.diff 2>/dev/null; then
+  : # the same change carried over a later fix: commit that touched the same lines
+elif ! git -C $WT apply $S/patch.diff 2>/dev/null; then
+  # /repo has moved on under the patch (a later fix: commit touches the same lines): evaluate on the commit the change was written against
+  ON=$(jq -r .base_commit $S/meta.json)
+  git -C $WT checkout -q --detach $ON && git -C $WT reset -q --hard && git -C $WT clean -qfd && git -C $WT apply $S/patch.diff || { echo "EVAL $ID: patch applies neither to HEAD nor to its base"; exit 2; }
+  echo "EVAL $ID: patch does not apply to HEAD any more; evaluated on its base commit $ON (violations of defects repaired after that commit may appear too)"
+fi
 rm -rf $OUT; mkdir -p $OUT; cp /verif/known_findings.jsonl $OUT/
 cd /verif
 if [ "$PROP" = C20 ]; then
@@ -27,10 +35,11 @@ else
 fi
 git -C $WT reset -q --hard; git -C $WT clean -qfd
 SIGS=$(grep 'signature[:=]' $OUT/out.txt | sed 's/^ *signature[:=] *//' | head -8 | jq -R . | jq -sc .)
-python3 - "$S/meta.json" "$PROP" "$TIER" "$RC" "$SIGS" <<'PY'
+ON=$ON python3 - "$S/meta.json" "$PROP" "$TIER" "$RC" "$SIGS" <<'PY'
 import json,sys
 p,prop,tier,rc,sigs=sys.argv[1:6]
-m=json.load(open(p)); m.setdefault('checks',{}).setdefault(prop,{})[tier]={'exit':int(rc),'detected':int(rc)==1,'signatures':json.loads(sigs or '[]')}
+import os
+m=json.load(open(p)); m.setdefault('checks',{}).setdefault(prop,{})[tier]={'exit':int(rc),'detected':int(rc)==1,'signatures':json.loads(sigs or '[]'),'evaluated_on':os.environ.get('ON','')[:7]}
 json.dump(m,open(p,'w'),indent=1)
 PY
 echo "EVAL $ID $PROP $TIER exit=$RC $(grep -c '^VIOLATION' $OUT/out.txt) violation line(s): $(echo $SIGS | cut -c1-260)"
